@@ -615,6 +615,7 @@ struct BfdEngine : Engine {
     if (c->out_acc > c->acc_at_last_sc) { c->sc_excused = true; stats().counters["disable_between_send_and_notification"]++; }
   }
   void before_drain() override { op_enable(); }
+  void per_pass() override { if (phase == 1 && bfd && !c->running) op_enable(); }   // a callback scheduled earlier may disable it while draining
   void teardown() override { if (bfd) { delete bfd; bfd = nullptr; c->tbox_gone = true; } }
 };
 
@@ -736,6 +737,9 @@ struct ServerEngine : Engine {
     if (!srv || srv->state() != TcpServer::State::kRunning) return;
     srv->stop(); c_disc = true;
     for (auto &c : conns) if (c->tbox_up && !c->tbox_gone) { c->tbox_gone = true; c->running = false; c->tfd = -1; }
+    // stop() empties the connection cabinet, which restarts its id sequence: tokens handed out before are forgotten here, as a
+    // user has to (a stale token may equal the token of a later connection — cabinet token aliasing is C08's subject)
+    for (size_t i = 0; i < tokens.size(); ++i) if (conns[i]->tbox_gone) tokens[i].reset();
     if (srv->state() != TcpServer::State::kInited) fail("server: state after stop() is not kInited");
     info.cls("server_stop");
   }
